@@ -77,6 +77,19 @@ CHECKS["C20"] = dict(
     note="Only records reaching the log facade are seen; paths the other scenarios do not reach are not covered. HTTP/3 not simulated.",
 )
 
+CHECKS["C06"] = dict(
+    level="exploration",
+    text="Seeded search over record sequences (valid and invalid) and their segmentations, sent through a real _udp2 stream; an independent 6.3 encoder / 6.4 parser and the simulated UDP network decide that exactly the encoded datagrams leave, that invalid records are skipped whole, and that replies are framed as documented. Every 1-cut of long sequences is not enumerated: cuts are sampled (0-3 cuts, random pieces, byte-at-a-time).",
+    design="DESIGN.md section 8 (C06)",
+    note="Trusted: the harness's encoder/parser written from PROTOCOL.md. HTTP/3 not simulated.",
+)
+CHECKS["C07"] = dict(
+    level="exploration",
+    text="Seeded search over histories of flow operations, per-flow failures and time advances around the UDP time-out on the virtual clock; a flow-table reference model, the socket census, the gauge read through GET /metrics and the liveness of the multiplexer stream decide.",
+    design="DESIGN.md section 8 (C07)",
+    note="Trusted: the world's UDP socket model (connected sockets filter by peer, asynchronous errors surface on the next call). SOCKS5 UDP is covered by C15's scenario. HTTP/3 not simulated.",
+)
+
 NOT_YET = {
 }
 
